@@ -75,6 +75,25 @@ CHECKS = {
               "exhaustive tiny-field assignment search of DESIGN decision 1 and the vector/map gadgets are not built."),
         technique="TLA+/TLC-computed definitions over a toy field + replay of the real generic gadgets with consistent tamper plans, validated by a trace spec",
     ),
+    "C09": dict(
+        category="model_checking",
+        text=("Self-composition on recorded builder runs: every circuit is synthesised through a hook-free recording "
+              "Assignment (public plonk::Assignment trait, driven by the circuit's own floor planner as key generation "
+              "does) with an unknown witness and with concrete witnesses steering the data-dependent branches of the "
+              "off-circuit helpers (zero/non-zero, equal/opposite/identity points, borrows and carries, maximal limbs, "
+              "all-zero/all-ones bytes). Builder_Trace requires the structural projection - enabled selectors, fixed "
+              "cells, table fills, copy constraints, advice column heights, instance cells queried, region count - to be "
+              "a function of the circuit alone, and keys generated without a witness to verify honest proofs (real "
+              "setup_vk/prove/verify for selected relations). Circuits: all native-gadget operations over the toy field "
+              "and standard-library relations (native, Jubjub, emulated secp256k1 field and curve incl. "
+              "mul_by_constant, big integers, SHA-256, Poseidon, mixed)."),
+        design_ref="DESIGN.md 4/C09",
+        note=("Structural sets compared via counts and a 128-bit digest; listed boundary witnesses only; which "
+              "individual advice cells are written is reported but only column heights are required to agree; the "
+              "CircuitBuilder state-machine model of DESIGN 2 is not built (the trace spec holds the non-interference "
+              "statement)."),
+        technique="TLA+ trace specification (self-composition / non-interference) over recorded Assignment event digests",
+    ),
     "C14": dict(
         category="model_checking",
         text=("KzgMultiOpen (construct_intermediate_sets as a function of the query LIST, symbolic acceptance) is "
